@@ -11,7 +11,7 @@ THEOREMS = ["C08_delay_encoding", "C08_no_overflow", "C08_no_indeterminate_byte"
             "C08_utf8_decode_encode", "C08_utf16_encode_decode", "C08_utf8_valid_tag", "C08_utf8_decoder_scalars", "C08_gd3_renders_tag",
             # whole songs: Platform::vgm_export + MD_Driver
             "C08_invalid_tag_range_error", "C08_md_export_hyps", "C08_full_partial", "C08_pcm_windows_are_samples",
-            "C08_full_for_reachable_banks", "C08_pcm_offset_counterexample", "C08_example_pcm_bank", "C08_example_pcm_ops", "mdPokes_eq"]
+            "C08_full_for_reachable_banks", "C08_full_for_built_banks", "C08_pcm_offset_regression", "C08_example_pcm_bank", "C08_example_pcm_ops", "mdPokes_eq"]
 LEVEL = "proof"
 STREAM = "vgmw.ops+vgmsong+c08song"
 CHUNK = 40
@@ -412,7 +412,7 @@ SONG_MODEL_CORPUS = [
      % (_W16[0].hex(), _W5[0].hex(), _W16[1].hex(), _W5[1].hex()), ("pcm-song", "pcm-stream", "loop")),
     # the same sample twice (shared data, two headers)
     ("c08song T5:17.30.0.0,2.40.2.2,17.31.0.0,2.41.2.2 @30=pcm,a.wav @31=pcm,a.wav,rate=4000 Wa.wav=%s X%s" % (_W16[0].hex(), _W16[1].hex()), ("pcm-song", "pcm-stream")),
-    # D11 seen through the VGM export: offset= on a freshly placed sample -> the window runs past the data block
+    # regression for D11 (fixed in e0c1e8f): offset= on a freshly placed sample; the window ran past the data block
     ("c08song T5:17.30.0.0,2.40.6.2 @30=pcm,a.wav,offset=4 Wa.wav=%s X%s" % (_W16[0].hex(), _W16[1][4:].hex()), ("pcm-song", "pcm-offset")),
     # tags through get_tags: fallbacks #author -> author, #programer -> creator, author -> creator
     ("c08song T0:2.40.6.2 #title=41e38182 #composer=c3a9 #game=f09f9880", ("tags",)),
@@ -548,9 +548,6 @@ def finding_key(case, impl, judge):
                      (r"clock", "clock"), (r"stream start|length mode", "pcm-stream"), (r"command stream differs|does not parse", "stream"),
                      (r"data block payload", "datablock"), (r"undefined behaviour", "ub"), (r"range_error", "range-error")):
         if re.search(pat, j):
-            if key == "pcm-stream" and "offset=" in case.req:
-                # D11 (C14 d11:offset-window) seen through the VGM export
-                return "d11:offset-window"
             return key
     return "other"
 
@@ -594,7 +591,7 @@ ASSUMPTIONS = ["delays are integers below 2^31 samples per flush (proved for who
                "date and notes defaults (wall clock, build stamp) are inputs of the model; the harness canonicalises them by shape",
                "whole songs: the plain playback subset of Model/MdDriver plus PCM instruments in pcm_mode 0 (no PLATFORM events, portamento, "
                "pitch envelope, macro track, FM3, software PCM mixing), songs that end or loop within max_seconds (otherwise the model answers "
-               "tooLong), wave bank satisfying the allocator invariant of C14 (excludes offset= on freshly placed data, known finding D11)"]
+               "tooLong), WAV files below 1 GiB (the bound of C14's bank theorems; then the allocator invariant is proved for every bank read_song builds)"]
 TECHNIQUE = "Lean 4 proof (invariant over writer operation sequences, parser prefix lemmas, kind/port invariant over the MD driver model, UTF-8/UTF-16 codec inversion) + differential correspondence model<->vgm.cpp and model<->whole-song export + spec oracle on exported bytes"
 LEVEL_TEXT = ("Machine-checked theorems, two layers. (1) Over a Lean model of vgm.cpp, for ALL exporter operation sequences (caller header pokes; any PSG/YM2612 "
               "writes, delays, loop points anywhere incl. sample 0, stream data blocks, DAC stream setup/start/stop; stop; write_tag with any "
@@ -616,8 +613,9 @@ LEVEL_TEXT = ("Machine-checked theorems, two layers. (1) Over a Lean model of vg
 LEVEL_NOTE = ("Trusted: Lean kernel, the hand-written models Model/Vgm.lean, Model/MdDriver.lean (+ PlayerCh, Wave) (agreement with vgm.cpp, song.cpp, md.cpp by "
               "differential testing under ASan with every fresh heap byte filled, zero differences, on operation sequences and on whole songs "
               "incl. PCM instruments and tags), Spec/VgmParse.lean, file < 4 GiB for the 32-bit offset clauses, g++/ASan/UBSan and the harness. "
-              "Hypotheses of C08_full_partial that are not discharged (C08_full_statement is kept in the property file; C08_pcm_offset_counterexample shows the bank hypothesis is needed): the driver part completes (no player error, within max_seconds), the wave bank "
-              "satisfies C14's allocator invariant (false for offset= on fresh data: known finding d11:offset-window), the song stays in the "
+              "C08_full_for_built_banks discharges the wave-bank hypothesis of C08_full_partial for every bank read_song builds from WAV files below 1 GiB (any rate=/offset= "
+              "arguments; D11 was repaired in e0c1e8f, C08_pcm_offset_regression). Still hypotheses (C08_full_statement is kept in the property file): the driver part "
+              "completes (no player error, within max_seconds), WAV files < 1 GiB, exported file < 4 GiB, the song stays in the "
               "modelled subset (no platform commands / pitch envelopes / macro tracks / pcm_mode 2,3), MDSDRV_Data::read_song is represented by "
               "its result (instrument table + wave bank); MML-level songs outside the subset are decided per case by the spec oracle on the "
               "real bytes (stream vgmsong).")
